@@ -210,6 +210,31 @@ def gen_cases(ctx: Ctx):
             [pick(MU[1:]) for _ in range(n)],
             rng.random() < 0.2,
         )
+    # --- block E: the same arguments with zero_ghost_fragments on then off (and off then on): nothing may be carried
+    #     from one call to the next (ghost-containing systems of 2-4 fragments, incl. mixed real/ghost fragments)
+    for _ in range(ctx.scale(1500, 10000)):
+        n = rng.choice([2, 3, 3, 4])
+        frags = []
+        for _k in range(n):
+            r = rng.random()
+            if r < 0.3:
+                frags.append([0] * rng.randint(1, 2))
+            elif r < 0.45:
+                f = [0, rng.randint(1, 10)] + ([rng.randint(1, 4)] if rng.random() < 0.4 else [])
+                rng.shuffle(f)
+                frags.append(f)
+            else:
+                frags.append([rng.randint(1, 12)])
+        pn = rng.choice([0.8, 0.5])
+
+        def pick2(vals):
+            return None if rng.random() < pn else rng.choice(vals)
+
+        c, fc = pick2(CH[1:]), [pick2(CH[1:]) for _ in range(n)]
+        m, fm = pick2(MU[1:]), [pick2(MU[1:]) for _ in range(n)]
+        first = rng.random() < 0.5
+        yield "E", (frags, c, fc, m, fm, first)
+        yield "E", (frags, c, fc, m, fm, not first)
     # --- block D: multiplicity screen (0, negative) — integers only so that the model applies
     for _ in range(ctx.scale(800, 4000)):
         n = rng.choice([1, 2, 3])
